@@ -530,6 +530,24 @@ class Interp(object):
 
     def st_For(self, st, fr):
         it = self.ev(st.iter, fr)
+        # a loop over a short sequence whose items are known one by one (a literal tuple of two components, a zip of such ...) is run item
+        # by item, in order: exactly what the loop does; only when the body cannot leave the loop early
+        if it.kind in (K_TUPLE, K_LIST) and it.items is not None and 1 <= len(it.items) <= 4 and it.note != "range" and not st.orelse and \
+                all(x is not None for x in it.items) and \
+                not any(isinstance(n, (ast.Break, ast.Continue, ast.Return)) for b in st.body for n in ast.walk(b)):
+            self.stats["loops"] += 1
+            out = Flow(None)
+            for item in it.items:
+                self.assign(st.target, item, fr, st, quiet=True)
+                f = self.exec_block(st.body, fr)
+                out.raises += f.raises
+                if f.normal is None:
+                    out.normal = None
+                    fr.state = None
+                    return out
+                fr.state = f.normal
+            out.normal = fr.state
+            return out
         elem, trip_pc, nonempty = self.iter_elem(it, fr, st)
         self.stats["loops"] += 1
         st_in = fr.state
@@ -1384,6 +1402,11 @@ class Interp(object):
         return top_av(True, "non-literal default", self.atoms)
 
     def call_user(self, fr, fi, args, kwargs, node, self_av=None):
+        if getattr(fi, "_is_gen", None) is None:
+            fi._is_gen = any(isinstance(n, (ast.Yield, ast.YieldFrom)) for n in ast.walk(fi.node))
+        if fi._is_gen and not any(ast.unparse(d).split(".")[-1] == "contextmanager" for d in fi.node.decorator_list):
+            # a generator function: the call makes a generator object, whose lazily produced items this interpreter does not follow
+            return self.unmodelled(fr, node, "generator %s" % fi.name).replace(tags=frozenset().union(*[a.tags for a in args if a is not None]) if args else frozenset())
         bound = self.bind(fi, args, kwargs, fr, node)
         self_obj = None
         if fi.cls is not None and fi.params:
